@@ -51,6 +51,35 @@ class Duck:
         self.__dict__.update(st)
 
 
+class Pair(rp.SupportRemoteGetState):
+    """non-dict state (a tuple of len(state) items) handed to its own __setstate__"""
+    def __init__(self, name, *items):
+        self.name = name
+        self.items = items
+
+    def __getstate__(self, remote=False):
+        LOG.append(('get', self.name, remote))
+        return (self.name,) + tuple(self.items)
+
+    def __setstate__(self, st):
+        LOG.append(('set', st[0] if isinstance(st, tuple) and st else repr(st)))
+        self.name, self.items = st[0], tuple(st[1:])
+
+
+class Slotted(rp.SupportRemoteGetState):
+    """no __setstate__, the (dict, slots) pair of a class with __slots__ as its state"""
+    __slots__ = ('name', 's')          # the base class has a __dict__, so instances have both
+
+    def __init__(self, name, s, **attrs):
+        self.name = name
+        self.s = s
+        self.__dict__.update(attrs)
+
+    def __getstate__(self, remote=False):
+        LOG.append(('get', self.name, remote))
+        return (dict(self.__dict__), {'name': self.name, 's': self.s})
+
+
 class Plain:
     def __init__(self, **a):
         self.__dict__.update(a)
@@ -71,6 +100,12 @@ def show(o, seen=None):
     if isinstance(o, (Opt, NoSet, Duck, Plain)):
         seen[id(o)] = getattr(o, 'name', 'plain')
         return f'{type(o).__name__}({", ".join(f"{k}={show(v, seen)}" for k, v in sorted(o.__dict__.items()))})'
+    if isinstance(o, Pair):
+        seen[id(o)] = o.name
+        return f'Pair({o.name!r}, items={show(o.items, seen)})'
+    if isinstance(o, Slotted):
+        seen[id(o)] = o.name
+        return f'Slotted({o.name!r}, s={show(o.s, seen)}, dict={show(o.__dict__, seen)})'
     if isinstance(o, list):
         return '[' + ', '.join(show(x, seen) for x in o) + ']'
     if isinstance(o, tuple):
@@ -84,6 +119,12 @@ def shapes():
     yield 'top', lambda: Opt('p', x=1)
     yield 'top without __setstate__', lambda: NoSet('p', x=1)
     yield 'top duck-typed', lambda: Duck('p', x=1)
+    yield 'top with __setstate__ and a 2-tuple state', lambda: Pair('p', 1)
+    yield 'top with __setstate__ and a 3-tuple state', lambda: Pair('p', 1, 2)
+    yield 'top with __setstate__ and a 1-tuple state', lambda: Pair('p')
+    yield 'child with __setstate__ and a 2-tuple state', lambda: Opt('p', a=Pair('a', [1, 2]))
+    yield 'top without __setstate__ and a (dict, slots) state', lambda: Slotted('p', 5, x=1)
+    yield 'child without __setstate__ and a (dict, slots) state', lambda: Opt('p', a=Slotted('a', 5, x=1))
     yield 'one child', lambda: Opt('p', a=Opt('a'))
     yield 'one child without __setstate__', lambda: Opt('p', a=NoSet('a'))
     yield 'two siblings', lambda: Opt('p', a=Opt('a'), b=Opt('b'))
@@ -200,7 +241,58 @@ def main():
                 pass
             except BaseException as e:     # noqa
                 viol.append(f'patching a non-dict state raised {type(e).__name__} instead of TypeError')
+        if not want or want.startswith('Lg') or want.startswith('L1'):
+            concurrent_loads(viol, obs)
     print(json.dumps({'violates': bool(viol), 'violations': viol, 'observed': obs, 'scenario': sc}, default=repr))
+
+
+class Gate(rp.SupportRemoteGetState):
+    """child whose __setstate__ parks the loading thread until it is released"""
+    parked = None
+    release = None
+
+    def __init__(self, name, **attrs):
+        self.name = name
+        self.__dict__.update(attrs)
+
+    def __getstate__(self, remote=False):
+        return dict(self.__dict__)
+
+    def __setstate__(self, st):
+        self.__dict__.update(st)
+        if Gate.parked is not None and st.get('park'):
+            Gate.parked.set()
+            Gate.release.wait(10)
+
+
+def concurrent_loads(viol, obs):
+    """two loads with different patches on two threads, interleaved: thread A is parked inside its child's __setstate__ while thread B runs a complete
+    patched loads; each must see its own patches only"""
+    import threading
+    Gate.parked, Gate.release = threading.Event(), threading.Event()
+    blob_a = rp.dumps(Opt('pa', x=1, c=Gate('ca', y=1, park=True)))
+    blob_b = rp.dumps(Opt('pb', x=1, c=Gate('cb', y=1, park=False)))
+    res = {}
+
+    def load(tag, blob, patches):
+        try:
+            o = rp.loads(blob, extra_kwargs=patches)
+            res[tag] = (o.x, o.c.y)
+        except BaseException as e:     # noqa
+            res[tag] = f'{type(e).__name__}: {e}'
+    ta = threading.Thread(target=load, args=('A', blob_a, {'x': 100, 'c': {'y': 101}}))
+    ta.start()
+    if not Gate.parked.wait(10):
+        viol.append('concurrent loads: thread A never reached the __setstate__ of its child')
+    tb = threading.Thread(target=load, args=('B', blob_b, {'x': 200, 'c': {'y': 201}}))
+    tb.start()
+    tb.join(10)
+    Gate.release.set()
+    ta.join(10)
+    Gate.parked = Gate.release = None
+    obs['concurrent'] = dict(res)
+    if res.get('A') != (100, 101) or res.get('B') != (200, 201):
+        viol.append(f'concurrent loads on two threads interfere: thread A (patches x=100, c.y=101) got {res.get("A")!r}, thread B (patches x=200, c.y=201) got {res.get("B")!r}')
 
 
 if __name__ == '__main__':
